@@ -111,6 +111,7 @@ def plan(tier, seed):
             jobs.append({'space': 'all', 'kind': kind, 'lo': lo, 'hi': hi,
                          'n': b['all_kinds'], 'tier': tier,
                          'weight': hi - lo})
+    jobs.append({'space': 'sections', 'tier': tier, 'weight': 200})
     n_one = count_desc(b['one_kind'])
     for lo, hi in core.chunks(n_one, 32 if tier == 'quick' else 256):
         jobs.append({'space': 'deep', 'kind': 'documented', 'lo': lo,
@@ -217,9 +218,70 @@ def check_sample(acc, P, gen, kind, desc, k, variant, exclude, full, space):
     acc.outcome('ok-%s' % kind)
 
 
+def run_sections(acc, P, gen):
+    """Several namespaces (sections), any of them empty: the YAML sample is
+    still comment-only and complete, the JSON sample still one valid object
+    holding every default."""
+    import yaml
+    pools = [[], [P.RuleDefault('a:one', 'role:a', description='first')],
+             [P.RuleDefault('b:one', "'x':%(k)s"),
+              P.DocumentedRuleDefault('b:two', 'rule:a:one or role:b', 'two',
+                                      [{'path': '/b', 'method': 'GET'}])]]
+    for combo in itertools.product(range(3), repeat=3):
+        sections = {'ns%d' % i: list(pools[c]) for i, c in enumerate(combo)}
+        # distinct names per section
+        expected = {}
+        for i, (ns, defs) in enumerate(sorted(sections.items())):
+            renamed = []
+            for d in defs:
+                nm = '%s:%d' % (d.name, i)
+                if isinstance(d, P.DocumentedRuleDefault):
+                    renamed.append(P.DocumentedRuleDefault(
+                        nm, d.check_str, d.description, d.operations))
+                else:
+                    renamed.append(P.RuleDefault(nm, d.check_str,
+                                                 description=d.description))
+                expected[nm] = d.check_str
+            sections[ns] = renamed
+        case = {'kind': 'sections', 'layout': list(combo)}
+        acc.case('sections', True)
+        for fmt in ('yaml', 'json'):
+            acc.ev()
+            buf = io.StringIO()
+            try:
+                with world.entry_points(policies=sections):
+                    with contextlib.redirect_stdout(buf):
+                        gen._generate_sample(sorted(sections), None, fmt)
+                text = buf.getvalue()
+                if fmt == 'json':
+                    got = json.loads(text) if expected or text.strip() \
+                        else {}
+                else:
+                    stray = [l for l in YAML_BREAKS.split(text)
+                             if l.strip() and not l.startswith('#')]
+                    if stray:
+                        raise ValueError('uncommented line %r' % stray[0])
+                    got = yaml.safe_load('\n'.join(
+                        l[1:] if l.startswith('#"') else l
+                        for l in text.split('\n'))) or {}
+            except Exception as e:
+                got = 'raises %s: %s' % (type(e).__name__, str(e)[:80])
+            if got != expected:
+                acc.violation('sections|%s|%s' % (fmt, 'empty-section'
+                                                  if 0 in combo else 'full'),
+                              '%s sample over sections %r gives %r, expected '
+                              '%r' % (fmt, combo, got, expected), case,
+                              expected, got, 'sections')
+            acc.outcome('sections-%s' % fmt)
+    acc.sample('sections', {'layout': [0, 1, 2]})
+
+
 def run(job, seed):
     from oslo_policy import generator as gen, policy as P
     acc = core.Acc()
+    if job['space'] == 'sections':
+        run_sections(acc, P, gen)
+        return acc.result()
     it = itertools.islice(descriptions(job['n']), job['lo'], job['hi'])
     for i, (desc, k) in enumerate(it, job['lo']):
         for exclude in (False, True):
